@@ -69,6 +69,8 @@ def resume_items(tier):
     for sp, o in sel:
         for k in range(1, 6):
             out.append((sp, dict(o, resume_from=k)))
+            if k <= 4:
+                out.append((sp, dict(o, resume_from=k, resume_via_json=True)))  # ... written to JSON and continued in a new project
     return out
 
 
